@@ -338,7 +338,11 @@ func (p *Program) runInitOnly(ar *auditRef, all map[*ssa.Function]bool) (obls []
 			}
 		}
 		c := NewCtx(ModeInt, p.specs)
-		goal, text := "true", fmt.Sprintf("%s is written by the package initialiser only (%d functions scanned)", name, len(fns))
+		who := "the package initialiser only"
+		if len(allowed) > 0 {
+			who = fmt.Sprintf("the package initialiser and the %d listed functions only", len(allowed))
+		}
+		goal, text := "true", fmt.Sprintf("%s is written by %s (%d other functions scanned)", name, who, len(fns))
 		if len(bad) > 0 {
 			goal, text = "false", text+": "+bad[0]
 		}
